@@ -231,8 +231,32 @@ pub fn check_batch(cs: &[Constraint]) -> Vec<(usize, Fail)> {
                     }
                     if let Some(d) = declared {
                         let expected = d.to_string();
+                        // the body is judged by its value, not by its spelling: a literal, or a limit
+                        // of a Rust integer type written symbolically (`i16::MIN`, `u8::MAX`, `Self`-less)
+                        let symbolic = |b: &str| -> Option<i128> {
+                            let b = b.replace(' ', "");
+                            let (t, which) = b.split_once("::")?;
+                            let (lo, hi): (i128, i128) = match t {
+                                "i8" => (i8::MIN as i128, i8::MAX as i128),
+                                "i16" => (i16::MIN as i128, i16::MAX as i128),
+                                "i32" => (i32::MIN as i128, i32::MAX as i128),
+                                "i64" => (i64::MIN as i128, i64::MAX as i128),
+                                "u8" => (0, u8::MAX as i128),
+                                "u16" => (0, u16::MAX as i128),
+                                "u32" => (0, u32::MAX as i128),
+                                "u64" => (0, u64::MAX as i128),
+                                _ => return None,
+                            };
+                            match which {
+                                "MIN" => Some(lo),
+                                "MAX" => Some(hi),
+                                _ => None,
+                            }
+                        };
                         // i64::MIN cannot be written as a literal: accept the usual spellings
-                        let ok = body == expected || (d == i64::MIN && (body.contains("MIN") || body.contains("9223372036854775807-1") || body.contains("9223372036854775807 - 1")));
+                        let ok = body == expected
+                            || symbolic(&body) == Some(d as i128)
+                            || (d == i64::MIN && (body.contains("9223372036854775807-1") || body.contains("9223372036854775807 - 1")));
                         if !ok {
                             fails.push((i, (format!("accessor-value:{suffix}"), format!("{}: {owner}::{fname}_{suffix}() returns {body}, declared bound is {expected}", c.asn1()))));
                         }
